@@ -78,6 +78,8 @@ Cfg_full1 == <<A_full(1024)>>
 Cfg_quiet2 == <<A_quiet(1024), A_quiet(1025)>>
 Cfg_ka2 == <<A_ka(1024), A_quiet(1025)>>
 Cfg_quiet3 == <<A_quiet(1024), A_quiet(1025), A_quiet(1026)>>
+Cfg_tsync1 == <<[A_full(1024) EXCEPT !.tsync = "nonlan"]>>
+Cfg_tlan1 == <<[A_full(1024) EXCEPT !.tsync = "lan"]>>
 DEVM_none == {}
 DEVM_d9 == {"NoConfirmForNonRead"}
 =============================================================================
